@@ -81,6 +81,12 @@ func (e *Engine) lemmaObls(lm *Lemma) (obls []*Obligation, err error) {
 		for _, en := range lm.Ensures {
 			post = append(post, asTerm(x.evalSpec(ih, en.E)))
 		}
+		// Soundness of the step P(k-1) ==> P(k) over the integers needs a base: either the lemma's own requires
+		// bound k from below by a term that does not mention k (then P holds vacuously below the bound), or the
+		// hypothesis is only available for k-1 >= 0 and P(k) for k <= 0 has to be proved without it.
+		if !lowerBounded(lm.Requires, lm.Induction) {
+			pre = append(pre, Cmp("<=", Int(0), Sub(k, Int(1))))
+		}
 		st.assume(Implies(And(pre...), And(post...)), "induction-hypothesis")
 	}
 	// uses of other (already proved) lemmas
@@ -94,4 +100,63 @@ func (e *Engine) lemmaObls(lm *Lemma) (obls []*Obligation, err error) {
 		}
 	}
 	return x.obls, nil
+}
+
+// lowerBounded: some top-level conjunct of the requires clauses has the form  X <= k, X < k, k >= X, k > X
+// with k the induction variable and X an expression that does not mention k.
+func lowerBounded(reqs []Clause, k string) bool {
+	var mentions func(e Expr) bool
+	mentions = func(e Expr) bool {
+		switch e := e.(type) {
+		case *EIdent:
+			return e.Name == k
+		case *EUn:
+			return mentions(e.X)
+		case *EBin:
+			return mentions(e.L) || mentions(e.R)
+		case *ECond:
+			return mentions(e.C) || mentions(e.A) || mentions(e.B)
+		case *ECall:
+			for _, a := range e.Args {
+				if mentions(a) {
+					return true
+				}
+			}
+			return false
+		case *EIndex:
+			return mentions(e.X) || mentions(e.I)
+		case *ESlice:
+			return mentions(e.X) || (e.Lo != nil && mentions(e.Lo)) || (e.Hi != nil && mentions(e.Hi))
+		case *EField:
+			return mentions(e.X)
+		case *EQuant:
+			return true // conservative
+		case *EOld:
+			return mentions(e.X)
+		}
+		return false
+	}
+	isK := func(e Expr) bool { id, ok := e.(*EIdent); return ok && id.Name == k }
+	var conj func(e Expr) bool
+	conj = func(e Expr) bool {
+		b, ok := e.(*EBin)
+		if !ok {
+			return false
+		}
+		switch b.Op {
+		case "&&":
+			return conj(b.L) || conj(b.R)
+		case "<=", "<":
+			return isK(b.R) && !mentions(b.L)
+		case ">=", ">":
+			return isK(b.L) && !mentions(b.R)
+		}
+		return false
+	}
+	for _, r := range reqs {
+		if conj(r.E) {
+			return true
+		}
+	}
+	return false
 }
